@@ -34,6 +34,29 @@ def pike_crash(out):
     return None
 
 
+def pike_hang(out):
+    """the runner's watchdog gave up (requests in flight, none completed for 90 s): attributed to pike when a request goroutine
+    (one that is inside World.DoBody) is blocked with a frame of pike above the harness frames"""
+    if 'HANG: ' not in out:
+        return None
+    for g in out[out.index('HANG: '):].split('\n\n'):
+        if 'pikeverif/world.(*World).DoBody' not in g or not g.startswith('goroutine '):
+            continue
+        head = g.split('\n', 1)[0]
+        if not re.search(r'\[(chan receive|chan send|select|sync\.|semacquire)', head):
+            continue
+        for line in g.split('\n')[1:]:
+            line = line.strip()
+            if not line or line.startswith('/') or line.startswith('created by'):
+                continue
+            fn = line.split('(')[0]
+            if fn.startswith('github.com/vicanso/pike/'):
+                return 'hang: requests blocked for 90 s in ' + fn + ' ' + head[head.index('['):]
+            if fn.startswith('pikeverif/') or fn.startswith('main.'):
+                break
+    return None
+
+
 def run(pid, tier, spec, replay_file=None, write=True, clear=True):
     t0 = time.time()
     if not replay_file and clear:
@@ -74,7 +97,7 @@ def run(pid, tier, spec, replay_file=None, write=True, clear=True):
         p = subprocess.run([harness, 'cases', '-kind', kind, '-in', cases_path, '-out', obs_path], env=env,
                            stdout=subprocess.PIPE, stderr=subprocess.STDOUT, text=True, timeout=spec.get('run_timeout', 900))
         if p.returncode != 0 or not os.path.exists(obs_path):
-            crash = pike_crash(p.stdout)
+            crash = pike_crash(p.stdout) or pike_hang(p.stdout)
             if crash:
                 # the runner process died inside pike's own code (fatal error / panic whose first frames are pike's):
                 # that is behaviour of the real code, reported as such; anything else is an infrastructure failure
